@@ -885,7 +885,17 @@ class GromacsRunner:
                                     self.bytes_read += new_bytes
                                     yield data
                             else:
-                                # Data is not ready, just wait:
+                                # Data is not ready. If GROMACS has stopped
+                                # (check_poll raises when it failed) and the
+                                # data is still not there, it never will be:
+                                if (
+                                    self.check_poll() is not None
+                                    and os.path.getsize(self.trr_file)
+                                    < self.bytes_read + self.data_size
+                                ):
+                                    self.stop_read = True
+                                    break
+                                # else just wait:
                                 sleep(self.SLEEP)
                 else:
                     # Header was not ready, just wait before trying again.
